@@ -68,7 +68,10 @@ def check_history(ctx, anchor, label, cells, steps, sheet='Sheet1', why='', cach
                 wb.set_model(f'{sheet}!{step[1]}', step[2])
             else:
                 wb.set(f'{sheet}!{step[1]}', step[2])
-            cur[step[1]] = step[2]
+            if step[2] is None:
+                cur.pop(step[1], None)          # a cell set to None is an empty cell
+            else:
+                cur[step[1]] = step[2]
             trail.append(f'set {step[1]}={step[2]!r}')
             continue
         addr = f'{sheet}!{step[1]}'
